@@ -16,8 +16,8 @@ namespace PebblesVerif
     `es` of type `T`. No bound on the number of fields, on the length `k` of the list (`k = 0`
     allowed), on the data; the SAME entity may occur at several positions. Ids are arbitrary non-empty
     strings (`#`, the path separator, may occur in them: the point is cut at the FIRST `#`, cf.
-    `C01_point_hash_in_id`); every reference resolves (cf. the open finding
-    `C01-null-in-object-list`: a `null` element fails the whole request). Every service answers
+    `C01_point_hash_in_id`); every reference resolves (lists with `null` elements:
+    `C01_flat_list_nulls_one_hop`, `Props/C01FlatListNulls.lean`). Every service answers
     its sub-requests as the reference evaluator does over its OWN schema.
 
     `Model.gateway` — sanitise (adds the helper `id` under `q`), plan (root step at `A`, ONE child
